@@ -43,3 +43,18 @@ package stats
 //@     invariant forall a int :: 0 <= a < o ==> !isNaN(merged[a]) && (j < len(x2) ==> merged[a] <= x2[j])
 //@     invariant forall k int :: 0 <= k < o ==> labels[k] == 1 || labels[k] == 2
 //@     decreases len(x2) - j
+
+// The two-sample tests are functions of their arguments (their statistical
+// content is the subject of C11/C12, not of these contracts); used by callers'
+// contracts to say *which* samples are tested.
+//@ func TwoSampleWelchTTest(x1, x2 TTestSample, alt LocationHypothesis) (r *TTestResult, err error)
+//@   props C17
+//@   opt functional
+//@   trusted
+//@   ensures err == nil ==> r != nil
+
+//@ func MannWhitneyUTest(x1, x2 []float64, alt LocationHypothesis) (r *MannWhitneyUTestResult, err error)
+//@   props C17
+//@   opt functional
+//@   trusted
+//@   ensures err == nil ==> r != nil
